@@ -13,7 +13,10 @@ if not os.path.isdir(wt):
 def sh(cmd):
     return subprocess.run(cmd, shell=True, cwd=wt, stdout=subprocess.PIPE, stderr=subprocess.STDOUT, text=True)
 sh("git checkout -q -- . && git clean -fdq -e target && git checkout -q --detach main")
-r = sh("git apply %s/seeded/%s/patch.diff" % (VERIF, sid))
+pf = "%s/seeded/%s/patch.rebased.diff" % (VERIF, sid)
+if not os.path.exists(pf):
+    pf = "%s/seeded/%s/patch.diff" % (VERIF, sid)
+r = sh("git apply %s || git apply -3 %s" % (pf, pf))
 if r.returncode != 0:
     print(sid, "PATCH DOES NOT APPLY", r.stdout); sys.exit(3)
 rf = "%s/seeded/%s/result.json" % (VERIF, sid)
